@@ -248,6 +248,7 @@ def run_history(server, hist, ctx=None, keep=False, servers=None):
             if kind == "build":
                 cfg = step[1]
                 project.clear_log(root)
+                project.write_config_file(root, cfg)      # options this build takes from the config file (cfg["maxfail_src"])
                 pre = project.snapshot_nodes(root, spec)
                 if servers:
                     server = servers[nbuild % len(servers)]
